@@ -200,7 +200,9 @@ LinComp(lin, p, c) == IF c = 0 THEN LinAt(lin, p) ELSE lin.b[c]
 (* exactly: F = the fraction closest to x with denominator <= 2^15         *)
 (* (fractions.Fraction.limit_denominator), recorded as i + n/d with        *)
 (* i = floor(F), 0 <= n/d < 1, and e = round(|x - F| * 2^40) (capped at    *)
-(* 2^30).  k = "num", or "nan" / "inf" for a non-finite value.             *)
+(* 2^30).  k = "num", or "nan" / "inf" for a non-finite value.  Also       *)
+(* q = round(x * 2^20) with qok = (|x| < 1000), used where x is no such     *)
+(* fraction (shipped kernels).                                             *)
 (* Two different fractions with denominators <= 2^15 differ by >= 2^-30;   *)
 (* rounding errors of the code are below 1e-11 for the magnitudes used.    *)
 (* So for an expected value P/Q with Q <= 2^15:                            *)
@@ -216,11 +218,17 @@ RecEq(v, r, tol) ==
     /\ v.i = FloorDiv(r[1], r[2])
     /\ v.n * r[2] = (r[1] - v.i * r[2]) * v.d
 RecEqInt(v, c, tol) == IsNum(v) /\ v.e <= tol /\ v.i = c /\ v.n = 0
-\* lo <= v <= hi for integers lo, hi, within tol * 2^-40
+\* lo <= v <= hi for integers lo, hi, within tol * 2^-40 (exact values)
 RecBetween(v, lo, hi, tol) ==
     /\ IsNum(v) /\ v.e <= tol
     /\ lo <= v.i
     /\ v.i < hi \/ (v.i = hi /\ v.n = 0)
+\* Values that are not rationals with a small denominator (shipped kernels)
+\* are also recorded as q = round(x * 2^20), qok = (|x| < 1000):
+\* lo <= v <= hi within 2 * 2^-20, for |lo|, |hi| < 1000
+RecBetweenQ(v, lo, hi) ==
+    /\ IsNum(v) /\ v.qok
+    /\ lo * 1048576 - 2 <= v.q /\ v.q <= hi * 1048576 + 2
 TolExact == 1024            \* 2^-30: probe kernel, exact lattice arithmetic
 TolFine == 2                \* 1.8e-12: "constant reproduced to 1e-12"
 TolLoose == 1048576         \* 2^-20
@@ -270,8 +278,8 @@ ClauseBounds(c, P, p, th, v) ==
         LET may == MaySet(c, P, p, th)
             must == MustSet(c, P, p, th)
             vals == FVals(P, may) \cup (IF must = {} THEN {0} ELSE {})
-        IN RecBetween(v[1], SetMin(vals), SetMax(vals),
-                      IF c.exact THEN TolExact ELSE TolLoose)
+        IN IF c.exact THEN RecBetween(v[1], SetMin(vals), SetMax(vals), TolExact)
+           ELSE RecBetweenQ(v[1], SetMin(vals), SetMax(vals))
 ClauseConstant(c, P, p, th, v) ==
     (Normalised(c.method) /\ MustSet(c, P, p, th) # {}
      /\ Cardinality(FVals(P, MaySet(c, P, p, th))) = 1) =>
